@@ -28,12 +28,12 @@ for p in props:
             "evidence_file": f"/verif/evidence/{pid}.json",
             "replay_cmd_template": "cat {path}",
             "engine": "govc",
-            "level_claimed": {"category": "proof", "text": c["text"], "design_ref": c.get("design_ref", "DESIGN.md §4 " + pid)},
+            "level_claimed": {"category": "proof", "text": c["text"], "design_ref": c.get("design_ref", "DESIGN.md Part A, A4 " + pid)},
             "level_note": c["note"],
             "technique": TECH,
         })
     else:
-        na.append({"property_id": pid, "reason": c.get("reason", "contracts for this property are not discharged yet; no obligation is claimed (see DESIGN.md §4 " + pid + ")")})
+        na.append({"property_id": pid, "reason": c.get("reason", "contracts for this property are not discharged yet; no obligation is claimed (see DESIGN.md A4 " + pid + ")")})
 
 m = {
     "version": 1,
